@@ -517,6 +517,71 @@ func (c *c18) rest(tier rt.Tier, U []uint64, I []int64, F []float64) {
 		}
 	}
 	rep.Set("overflow_frontier_calls", frontier)
+	// call ORDER: the helpers are pure, so the answer to a call must not depend on the call before it. Every
+	// ordered pair (A, B) of second operands from a set whose members are equal modulo 2^8, 2^16, 2^31, 2^32,
+	// 2^53 (what a hidden memo keyed by a truncated operand would confuse) is made back to back on this one
+	// goroutine, for four first operands; both answers are judged.
+	var M []uint64
+	for _, v := range []uint64{0, 1, 2, 3, 7, 10, 1000, 4294967294} {
+		for _, m := range []uint64{0, 1 << 8, 1 << 16, 1 << 31, 1 << 32, 1 << 33, 1 << 53, 1 << 62} {
+			M = append(M, v+m)
+		}
+	}
+	ordered := 0
+	type pairFn struct {
+		name string
+		f    func(x, y uint64) string
+	}
+	fns := []pairFn{
+		{"DistributeCoin", func(x, y uint64) string {
+			if y > math.MaxInt64 {
+				return ""
+			}
+			q, r, err := currency.DistributeCoin(C(x), int64(y))
+			if y == 0 {
+				if err == nil {
+					return "returned without error for divisor 0"
+				}
+				return ""
+			}
+			if err != nil {
+				return fmt.Sprintf("returned error %v for a positive divisor", err)
+			}
+			wq, wr := new(big.Int).QuoRem(bigU(x), bigU(y), new(big.Int))
+			if bigU(uint64(q)).Cmp(wq) != 0 || bigU(uint64(r)).Cmp(wr) != 0 {
+				return fmt.Sprintf("returned (%d,%d), exact quotient/remainder (%s,%s)", uint64(q), uint64(r), wq, wr)
+			}
+			return ""
+		}},
+		{"MultCoin", func(x, y uint64) string {
+			g, err := currency.MultCoin(C(x), C(y))
+			return exactU(g, err, new(big.Int).Mul(bigU(x), bigU(y)))
+		}},
+		{"AddCoin", func(x, y uint64) string {
+			g, err := currency.AddCoin(C(x), C(y))
+			return exactU(g, err, new(big.Int).Add(bigU(x), bigU(y)))
+		}},
+		{"MinusCoin", func(x, y uint64) string {
+			g, err := currency.MinusCoin(C(x), C(y))
+			return exactU(g, err, new(big.Int).Sub(bigU(x), bigU(y)))
+		}},
+	}
+	for _, fn := range fns {
+		for _, first := range []uint64{10000000000000, math.MaxUint64, 1, 4294967296} {
+			for _, a := range M {
+				for _, b := range M {
+					ordered++
+					if msg := fn.f(first, a); msg != "" {
+						c.fail(fn.name, fmt.Sprintf("%d, %d", first, a), msg)
+					}
+					if msg := fn.f(first, b); msg != "" {
+						c.fail(fn.name+" (called right after the same helper with second operand "+fmt.Sprint(a)+")", fmt.Sprintf("%d, %d", first, b), msg)
+					}
+				}
+			}
+		}
+	}
+	rep.Set("ordered_call_pairs", ordered)
 	// full range 0..10^6 (quick) / 0..10^7 (thorough): format then parse is the identity
 	top := uint64(1000000)
 	if tier == rt.Thorough {
@@ -532,6 +597,30 @@ func (c *c18) rest(tier rt.Tier, U []uint64, I []int64, F []float64) {
 			break
 		}
 	}
+	// the same identity in dense windows higher up, where one float step is worth a sizeable fraction of a coin
+	// (from 2^49 coins) or more than a coin (from 2^53/10 coins = 524288 ZCN) up to the last amounts of 15
+	// significant digits below 2^53 coins: every coin value divisible by 10 (15 significant digits) of a window
+	win := uint64(60000)
+	if tier == rt.Thorough {
+		win = 600000
+	}
+	bands := 0
+	for _, start := range []uint64{1 << 46, 1 << 49, 1 << 50, 1 << 51, 1 << 52, 5242880000000000, 6000000000000000, 7000000000000000, 8999999999000000, 1<<53 - 10*win - 10} {
+		bands++
+		base := (start + 9) / 10 * 10
+		for i := uint64(0); i < win; i++ {
+			a := base + 10*i
+			z, err := C(a).ToZCN()
+			back, err2 := currency.ParseZCN(z)
+			c.evals++
+			c.byFn["ToZCN∘ParseZCN windows"]++
+			if err != nil || err2 != nil || uint64(back) != a {
+				c.fail("ToZCN/ParseZCN", fmt.Sprint(a), fmt.Sprintf("round trip of an amount with at most 15 significant digits gives %d (%v, %v)", uint64(back), err, err2))
+				break
+			}
+		}
+	}
+	rep.Set("format_parse_windows", bands)
 	rep.Set("evaluations", c.evals)
 	rep.Set("states", len(U)+len(I)+len(F))
 	rep.Set("transitions", c.evals)
